@@ -20,7 +20,7 @@ DTS = [0, 0.25, 1, 59.5, 60, 299, 300, 301, 359, 360, 361, 659, 660, 661, 900]
 
 KINDS = ["flow_step", "flow_new", "conn", "claim", "open", "add", "close", "release", "alloc", "list",
          "drop", "reconn", "adv", "restart", "ping", "rawconn", "claim_open",
-         "bad", "resend", "longadv"]
+         "bad", "resend", "longadv", "faultadv"]
 
 
 class Profile(object):
@@ -28,7 +28,7 @@ class Profile(object):
 
     def __init__(self, name, weights, napps=2, nsides=3, nnames=4, nmail=2,
                  free_text=0.15, max_conns=8, dts=None, usage=None, forged=False,
-                 moods=True, cross_app_mailbox=False):
+                 moods=True, cross_app_mailbox=False, rephase=False, dup=False):
         self.name = name
         self.weights = weights
         self.napps = napps
@@ -44,6 +44,8 @@ class Profile(object):
         # makes a handler raise IntegrityError.  When False, literal mailbox
         # ids are made app-specific by construction.
         self.cross_app_mailbox = cross_app_mailbox
+        self.rephase = rephase      # C11: restarts are written as "rephase" (reference side)
+        self.dup = dup              # C14: "resend" intents mark their duplicate command
 
     def kinds(self):
         out = []
@@ -54,7 +56,7 @@ class Profile(object):
 
 BASE_W = dict(flow_step=24, flow_new=4, conn=2, claim=3, open=3, add=4, close=3, release=2, alloc=1, list=1,
               drop=2, reconn=3, adv=3, restart=1, ping=0, rawconn=0, claim_open=1,
-              bad=0, resend=0, longadv=0)
+              bad=0, resend=0, longadv=0, faultadv=0)
 
 
 def W(**kw):
@@ -66,7 +68,7 @@ def W(**kw):
 PROFILES = {
     "mixed": Profile("mixed", W()),
     "replay": Profile("replay", W(add=9, open=7, reconn=4, restart=2, longadv=1), napps=2, nmail=2),
-    "fanout": Profile("fanout", W(add=10, open=8, conn=8, claim=2, alloc=0, release=1, restart=2), napps=1, nsides=3, nmail=2, nnames=2, forged=True),
+    "fanout": Profile("fanout", W(add=10, open=8, conn=8, claim=2, alloc=0, release=1, restart=3, adv=5), napps=1, nsides=3, nmail=2, nnames=2, forged=True),
     "claims": Profile("claims", W(claim=10, claim_open=2, release=5, close=4, add=1, open=2, restart=2, longadv=1), napps=2, nnames=3),
     "crowd": Profile("crowd", W(claim=8, open=7, close=4, release=3, add=4, reconn=4, conn=8, alloc=0), napps=1, nsides=4, nnames=1, nmail=1),
     "holders": Profile("holders", W(claim=9, release=7, list=4, close=3, alloc=3, open=2, add=1, restart=1), napps=1, nsides=2, nnames=3),
@@ -74,6 +76,10 @@ PROFILES = {
     "clock": Profile("clock", W(adv=9, add=5, open=5, claim=4, drop=4, reconn=3, restart=1, alloc=1), napps=2, nnames=2, nmail=2),
     "hostile": Profile("hostile", W(bad=14, rawconn=2, ping=2, conn=6), napps=2),
     "usage": Profile("usage", W(close=7, release=5, adv=3, longadv=2, claim=6, claim_open=4), napps=2, nsides=4, nnames=2, nmail=2),
+    "sweeper": Profile("sweeper", W(adv=5, longadv=3, faultadv=3, close=4, add=5, reconn=3, restart=1, resend=1), napps=3, nsides=3, nnames=2, nmail=2),
+    "blurry": Profile("blurry", W(adv=4, longadv=2, close=6, release=5, claim=5, claim_open=3, conn=4), napps=2, nsides=3, nnames=2, nmail=2),
+    "restarts": Profile("restarts", W(restart=4, adv=5, longadv=1, reconn=4), napps=2, nsides=3, nnames=2, nmail=2, rephase=True),
+    "dups": Profile("dups", W(resend=8, adv=3, restart=1, close=4, release=3), napps=1, nsides=3, nnames=2, nmail=2, dup=True),
     "twoapps": Profile("twoapps", W(close=5, release=4, adv=3, longadv=1, restart=1), napps=2, nsides=2, nnames=2, nmail=2),
 }
 
@@ -252,8 +258,8 @@ class Driver(object):
         self.counters[k] = self.counters.get(k, 0) + n
 
     # -- executing one concrete op
-    def do(self, op):
-        if len(self.script) >= self.max_ops or self.w.crashed:
+    def do(self, op, force=False):
+        if (len(self.script) >= self.max_ops and not force) or self.w.crashed:
             return None
         j = len(self.script)
         self.script.append(op)
@@ -290,6 +296,8 @@ class Driver(object):
         if cs is None or not cs.bound:
             return
         msg = op["msg"]
+        if "dup_of" in op:
+            return      # nothing may depend on a duplicate (it is absent from the reference history)
         if msg.get("type") == "claim" and "nameplate" in msg:
             self.hot_np[cs.app] = msg["nameplate"]
         if msg.get("type") == "open" and "mailbox" in msg:
@@ -398,8 +406,12 @@ class Driver(object):
         if kind == "longadv":
             self.do({"op": "advance", "dt": 660.0 + 300.0 * (a % 3) + b})
             return
+        if kind == "faultadv":
+            # the first database access of the next sweep fails transiently
+            self.do({"op": "advance", "dt": 300.0 + (a % 2) * 300.0 + b, "fault": [0]})
+            return
         if kind == "restart":
-            self.do({"op": "restart"})
+            self.do({"op": "rephase" if p.rephase else "restart"})
             return
         cs = None
         if kind in ("claim", "alloc", "list", "claim_open"):
@@ -486,6 +498,8 @@ class Driver(object):
                 # an intermittently connected client re-subscribes
                 if c % 2 == 0 and was.open_sent and not was.close_done and not was.open_refused:
                     self.do({"op": "send", "c": ncid, "msg": {"type": "open", "mailbox": was.open_id_raw}})
+        elif kind == "resend" and p.dup:
+            self.dup_command(cs, b, c)
         elif kind == "resend":
             # re-send the last acknowledged command on a fresh connection of the same side
             if cs.bound and cs.last_ok_cmd is not None:
@@ -501,6 +515,45 @@ class Driver(object):
                 self.do({"op": "send", "c": cid, "msg": {"type": "ping", "ping": 0}})
         elif kind == "bad":
             self.bad(cs, a, b, c, t1, t2)
+
+    def dup_command(self, cs, b, c):
+        """C14: issue a claim/release/open/close that is valid in this
+        connection's state and, if it was answered successfully, re-send it at
+        once (explicit ids) on a fresh connection of the same side."""
+        if not cs.bound:
+            self.new_conn(self.app_of(b), self.side_of(c))
+            return
+        cid = cs.cid
+        opts = []
+        if not cs.claim_sent:
+            opts.append({"type": "claim", "nameplate": self.np_choice(cs, c)})
+        if (cs.claim_sent or cs.alloc_idx is not None) and not cs.release_done:
+            opts.append({"type": "release", "nameplate": cs.claim_np_raw if cs.claim_sent else {"$np": cs.alloc_idx}})
+        if not cs.holds and not cs.open_sent:
+            opts.append({"type": "open", "mailbox": self.mb_choice(cs, c)})
+        if not cs.close_done and (cs.open_sent or cs.claim_ok):
+            m = {"type": "close", "mailbox": cs.open_id_raw if cs.open_sent else {"$mb": cs.claim_idx}}
+            mood = MOODS[c % len(MOODS)]
+            if mood:
+                m["mood"] = mood
+            opts.append(m)
+        if not opts:
+            self.do({"op": "send", "c": cid, "msg": {"type": "ping", "ping": 0}})
+            return
+        msg = opts[b % len(opts)]
+        j = len(self.script)
+        st = self.do({"op": "send", "c": cid, "msg": msg})
+        if st is None:
+            return
+        types = [f.get("type") for (x, f) in st.frames if x == cid]
+        if "error" in types:
+            return
+        ncid = self.tr.next_cid
+        self.do({"op": "connect", "c": ncid}, force=True)
+        self.do({"op": "send", "c": ncid, "msg": {"type": "bind", "appid": cs.app, "side": cs.side}}, force=True)
+        self.do({"op": "send", "c": ncid, "msg": dict(msg), "dup_of": j}, force=True)
+        self.do({"op": "drop", "c": ncid}, force=True)
+        self.count("dups")
 
     def junk(self, a, b, c, t1, t2):
         """A small family of arbitrary finite JSON values built from the intent."""
